@@ -278,7 +278,7 @@ def run_shard(args):
         if c["id"] in got:
             ob = normalise(c, got[c["id"]])
         elif c["kindcase"] == "watch":
-            ob = {"results": [{"triggered": False, "alive": False} for _ in c["m"]["ops"]]}
+            ob = {"results": [{"triggered": False, "alive": False, "cbs": []} for _ in c["m"]["ops"]]}
         else:
             ob = {"ok": False, "listed": [], "removed": []}
         lines.append({"id": c["id"], "kindcase": c["kindcase"], "m": c["m"], "obs": ob})
